@@ -161,10 +161,15 @@ func VerifC10Unless() {
 func VerifC10Case() {
 	subj := nd.IntIn(-2, 9)
 	w1, w2, w3 := nd.IntIn(-2, 9), nd.IntIn(-2, 9), nd.IntIn(-2, 9)
-	hasElse := nd.Choice(2) == 1
+	elsePos := nd.Choice(3) // none, last, or written before the later when clauses: it still applies only when no when matches
+	hasElse := elsePos != 0
 	w4 := nd.IntIn(-2, 9)
-	src := "{% case s %}{% when w1, w2 %}A{% when w3 %}B{% when 50, 51, w4, 52 %}C"
-	if hasElse {
+	src := "{% case s %}{% when w1, w2 %}A"
+	if elsePos == 2 {
+		src += "{% else %}Z"
+	}
+	src += "{% when w3 %}B{% when 50, 51, w4, 52 %}C"
+	if elsePos == 1 {
 		src += "{% else %}Z"
 	}
 	src += "{% endcase %}"
